@@ -8,7 +8,7 @@ from harness import common, simruns, tracecheck, event_scn, event_sir, contagion
 from harness.common import Check, pool_map
 
 _G = {}
-SIMS = [s for s in simruns.ALL if s != "complex_contagion_SIR"]
+SIMS = [s for s in simruns.ALL if s != "complex_contagion_SIR"] + [simruns.RULE_SIM]
 
 
 def scenarios(tier, seed):
@@ -114,6 +114,9 @@ def _record(i):
             obs = simruns.observe_full(r, G)
             if obs["trans"] is None:
                 return {"error": "transmissions()/transmission_tree() raised %s" % obs["tree"], "etype": "no-transmissions"}
+            if obs.get("tree_changed"):
+                return {"error": "transmission_tree() called again after the caller pruned the graph it had been handed returns %d edge(s) where the first call returned %d"
+                                 % (obs["tree_changed"][1], obs["tree_changed"][0]), "etype": "tree-served-from-a-graph-the-caller-owns"}
             tr = _trace(obs["hist"], obs["trans"], obs["tree"], sc["n"], _adj(sc["n"], sc["edges"]), kind,
                         simruns.is_discrete(sim), float(sc["tmin"]),
                         [["I", "R"]] if kind == "SIR" else [["I", "S"]], [["I", "S", "I"]])
